@@ -583,43 +583,74 @@ class _:
     pure = staticmethod(lambda o, p: (lambda s: isect_size(s.bait.start, s.bait.end, s.end - s.rows[-1].length + 1, s.end))(p.scaffold))
 
 
+def _witness(n, start):
+    """the ghost position the what-if methods of OverlapResult report (first contig after the first row / before the
+    last row), as named by the engine at the call; None when the call was not made on this path"""
+    v = n.raw("g_j@OverlapResult.overhang_if_start_removed" if start else "g_j@OverlapResult.overhang_if_end_removed")
+    return None if v is None else v.z
+
+
+def _export_witness(n, st, start):
+    v = n.raw("g_j@OverlapResult.overhang_if_start_removed" if start else "g_j@OverlapResult.overhang_if_end_removed")
+    if v is not None:
+        st.frames[0].vars["g_j"] = v
+
+
+def _whatif_terms(s, j, start):
+    now = (s.bait.start - s.start) if start else (s.end - s.bait.end)
+    if start:
+        then = s.bait.start - (1 + s.g_src.cum(s.g_lo + j) - z3.If(s.rows.len == 1, s.g_te, 0))
+        where = first_contig_after(s, j)
+    else:
+        then = (s.g_src.cum(s.g_hi + 1 - j) + z3.If(s.rows.len == 1, s.g_ts, 0)) - s.bait.end
+        where = last_contig_before(s, j)
+    return now, then, where
+
+
 def _premise_whatif(cls, ty, start):
     @contract(f"{U}.{cls}.overhang_if_applied", kind="property", properties=("C18", "C01"))
     class _:
         params = {"self": ty}
         result = INT
+        ghost_locals = {"g_j": INT}
         requires = staticmethod(lambda o: [("wf", wf(o.self.scaffold)), ("nonempty", o.self.scaffold.rows.len > 0)])
         modifies = staticmethod(lambda o: [("alloc",), ("fresh-lists", ROW)])
+        ghost_exit = staticmethod(lambda o, n, res, st: _export_witness(n, st, start))
 
         @staticmethod
         def ensures(o, n, res):
             s = o.self.scaffold
-            j = z3.Int("j!whatif")
-            if start:
-                body = z3.And(first_contig_after(s, j), res == s.bait.start - (1 + s.g_src.cum(s.g_lo + j) - z3.If(s.rows.len == 1, s.g_te, 0)))
-            else:
-                body = z3.And(last_contig_before(s, j), res == (s.g_src.cum(s.g_hi + 1 - j) + z3.If(s.rows.len == 1, s.g_ts, 0)) - s.bait.end)
-            return [("value-of-the-what-if", z3.Exists([j], body))]
+            j = _witness(n, start)
+            if j is None and n.raw("g_j") is not None:
+                j = n.g_j
+            if j is None:
+                j0 = z3.Int("j!whatif")
+                now, then, where = _whatif_terms(s, j0, start)
+                return [("value-of-the-what-if", z3.Exists([j0], z3.And(where, res == then)))]
+            now, then, where = _whatif_terms(s, j, start)
+            return [("value-of-the-what-if", z3.And(where, res == then))]
 
     @contract(f"{U}.{cls}.overhang_error_delta_if_applied", kind="property", properties=("C18", "C01"))
     class _:
         params = {"self": ty}
         result = INT
+        ghost_locals = {"g_j": INT}
         requires = staticmethod(lambda o: [("wf", wf(o.self.scaffold)), ("nonempty", o.self.scaffold.rows.len > 0)])
         modifies = staticmethod(lambda o: [("alloc",), ("fresh-lists", ROW)])
+        ghost_exit = staticmethod(lambda o, n, res, st: _export_witness(n, st, start))
 
         @staticmethod
         def ensures(o, n, res):
             s = o.self.scaffold
-            j = z3.Int("j!whatif")
-            now = (s.bait.start - s.start) if start else (s.end - s.bait.end)
-            if start:
-                then = s.bait.start - (1 + s.g_src.cum(s.g_lo + j) - z3.If(s.rows.len == 1, s.g_te, 0))
-                where = first_contig_after(s, j)
-            else:
-                then = (s.g_src.cum(s.g_hi + 1 - j) + z3.If(s.rows.len == 1, s.g_ts, 0)) - s.bait.end
-                where = last_contig_before(s, j)
-            return [("change-of-the-absolute-overhang", z3.Exists([j], z3.And(where, res == smt.Abs(then) - smt.Abs(now))))]
+            j = _witness(n, start)
+            if j is None and n.raw("g_j") is not None:
+                j = n.g_j
+            if j is None:
+                j0 = z3.Int("j!whatif")
+                now, then, where = _whatif_terms(s, j0, start)
+                return [("change-of-the-absolute-overhang", z3.Exists([j0], z3.And(where, res == smt.Abs(then) - smt.Abs(now))))]
+            now, then, where = _whatif_terms(s, j, start)
+            return [("change-of-the-absolute-overhang", z3.And(where, res == smt.Abs(then) - smt.Abs(now)))]
 
 
 _premise_whatif("StartOverhangPremise", SP, True)
@@ -639,16 +670,18 @@ class _:
     @staticmethod
     def ensures(o, n, res):
         s = o.self.scaffold
-        j = z3.Int("j!whatif")
         out = [("single-row-is-never-removed", z3.Implies(s.rows.len == 1, z3.Not(res)))]
         for cls, start in (("StartOverhangPremise", True), ("EndOverhangPremise", False)):
-            now = (s.bait.start - s.start) if start else (s.end - s.bait.end)
-            if start:
-                then = s.bait.start - (1 + s.g_src.cum(s.g_lo + j) - z3.If(s.rows.len == 1, s.g_te, 0))
-                where = first_contig_after(s, j)
-            else:
-                then = (s.g_src.cum(s.g_hi + 1 - j) + z3.If(s.rows.len == 1, s.g_ts, 0)) - s.bait.end
-                where = last_contig_before(s, j)
-            out.append((f"improves-iff[{cls}]", z3.Implies(z3.And(o.self.isinstance(cls), s.rows.len != 1),
-                                                            z3.Exists([j], z3.And(where, res == z3.And(smt.Abs(then) - smt.Abs(now) < 0, then > -3 * o.err_length))))))
+            # the positions the two what-if reads were taken at (both are 'the first contig beyond the terminal row')
+            w1 = n.raw(f"g_j@{cls}.overhang_error_delta_if_applied")
+            w2 = n.raw(f"g_j@{cls}.overhang_if_applied")
+            j1 = w1.z if w1 is not None else z3.Int("j1!whatif")
+            j2 = w2.z if w2 is not None else j1
+            now, then1, where1 = _whatif_terms(s, j1, start)
+            _, then2, where2 = _whatif_terms(s, j2, start)
+            shrinks = smt.Abs(then1) - smt.Abs(now) < 0
+            body = z3.And(where1, z3.Implies(shrinks, where2), res == z3.And(shrinks, then2 > -3 * o.err_length))
+            if w1 is None:
+                body = z3.Exists([j1], body)
+            out.append((f"improves-iff[{cls}]", z3.Implies(z3.And(o.self.isinstance(cls), s.rows.len != 1), body)))
         return out
